@@ -6,7 +6,8 @@ check("C05", "model_checking",
       "Trusted: TLC, the rule R and the CFG semantics in spec/VarScope.tla, the renderer. Bound: quick <=5 items depth 2 "
       "(+ modules with constants/parameters <=3 items), thorough <=6 items depth 3 (+ <=4 with constants/parameters, + two label names); "
       "modules of two function bodies <=6 items, further use contexts / else-parts / label named like the variable <=5 items, result "
-      "expression with `goto return` <=6 items, two labels x two variables in phased bodies <=6 (thorough 7) items; "
+      "expression with `goto return` <=6 items, two labels x two variables in phased bodies <=6 (thorough 7) items, bodies that open with a block with bare gotos and two label names "
+      "(declarations in dead code) <=7 (8) items; every case also as second module of a compilation and with all items on one source line; "
       "random modules of 1-3 functions, bodies <=48 items, nesting <=8.",
       "TLA+ spec (VarScope.tla: rule, CFG path exploration, algorithm model) + TLC, replay of every case, TLC trace validation of hook events",
       "DESIGN.md section 5 C05")
